@@ -161,7 +161,11 @@ def forward_start_obs():
             n = p.ctx.fresh('n', 'I')
             idx = tm.floor(tm.div(START, DT))
             return [('payoff[n] uses the price at index floor(start/dt)', [tm.le(tm.IZERO, n), tm.lt(n, N)], res.at((n,)), relu(tm.sub(tm.div(X(n, LAST), X(n, idx)), K)))]
-        return fc.Case(run, hyps=DIMS + [tm.gt(DT, tm.ZERO), tm.ge(START, tm.ZERO), tm.lt(tm.floor(tm.div(START, DT)), T)], ensures=ens, shape=lambda res: (N,))
+        return fc.Case(run, hyps=DIMS + [tm.gt(DT, tm.ZERO), tm.ge(START, tm.ZERO), tm.lt(tm.floor(tm.div(START, DT)), T)], ensures=ens, shape=lambda res: (N,),
+                       scalars=['K', 'dt', 'start'], tensors={'X': ((N, T), 'R')},
+                       real_snippet='import math\nimport pfhedge.instruments as pi\nX=T(W["X"])\nu=pi.BrownianStock(dt=W["dt"],dtype=torch.float64); u.register_buffer("spot",X)\n'
+                                    'got=pi.EuropeanForwardStartOption(u, strike=W["K"], start=W["start"]).payoff()\n'
+                                    'result={"got": got, "ref": [max(r[-1]/r[math.floor(W["start"]/W["dt"])]-W["K"],0) for r in W["X"]]}')
     obs.append(fc.contract_ob('C12/EuropeanForwardStartOption.payoff/post', 'pfhedge.instruments.derivative.cliquet.EuropeanForwardStartOption.payoff_fn', [PROP], cls_case,
                               'EuropeanForwardStartOption pays max(S_T/S_start - K, 0) with S_start the price at index floor(start/dt) (over the reals)'))
     obs.append(fp_start_index_ob())
